@@ -507,6 +507,9 @@ func (w *vfWorld) do(h http.Handler, req *http.Request) *vfResp {
 	res.Cookies = (&http.Response{Header: rec.Header()}).Cookies()
 	if len(w.logs) > 0 {
 		res.LogUser = w.logs[len(w.logs)-1].Username
+		if res.LogUser == "-" {
+			res.LogUser = "" // the access log's placeholder for "nobody was admitted"
+		}
 	}
 	return res
 }
